@@ -848,7 +848,7 @@ func raceCase(c *Ctx, t []string, rc bool) {
 			if !ice.VerifUDPMuxConnSnapshot(id).Closed {
 				exp++
 			}
-			if runtime.NumGoroutine() == exp {
+			if runtime.NumGoroutine() == exp && muxGoroutines() == exp-base {
 				break
 			}
 			time.Sleep(10 * time.Microsecond)
